@@ -34,7 +34,22 @@ def text_scaled(f, P):
     return text(f)
 
 
-def h_grid(f, N, P, mode='offline'):
+def text_spelled(f, fa, fb):
+    """text of f with every interval bound v written fa % v / fb % v"""
+    f = T(f)
+    k = f[0]
+    if k in refsem.UNT:
+        return refsem.UNT[k].format(text_spelled(f[1], fa, fb), a=fa % f[2], b=fb % f[3])
+    if k in refsem.BINT:
+        return refsem.BINT[k].format(text_spelled(f[1], fa, fb), text_spelled(f[2], fa, fb), a=fa % f[3], b=fb % f[4])
+    if k in refsem.UN:
+        return refsem.UN[k].format(text_spelled(f[1], fa, fb))
+    if k in refsem.BIN:
+        return refsem.BIN[k].format(text_spelled(f[1], fa, fb), text_spelled(f[2], fa, fb))
+    return text(f)
+
+
+def h_grid(f, N, P, mode='offline', spell=None):
     f = T(f)
     P = Fraction(P)
     vs = sorted(variables(f))
@@ -43,12 +58,22 @@ def h_grid(f, N, P, mode='offline'):
     def body(env):
         A = env.A
         w = dt.trace(env, vs, N)
-        txt = 'out = ' + text_scaled(f, P)
-        period = None if P == 1 else (int(P * 1000), 'ms', 0.1)
-        sd = dt.make_spec('offline', txt, vs, period=period)
-        disc = [p[1] for p in dt.offline(sd, w, N, [float(k * P) for k in range(N)])]
-        sc = ct.make_spec(mode, txt, vs)
-        args = [[v, [[float(k * P), w[v][k]] for k in range(N)]] for v in vs]
+        if spell:
+            # the bounds of f (in samples) written with explicit/default units; one sample every `scale` default units
+            fa, fb, unit, scale, per = spell
+            txt = 'out = ' + text_spelled(f, fa, fb)
+            sd = dt.make_spec('offline', txt, vs, unit=unit, period=tuple(per) + (0.1,))
+            disc = [p[1] for p in dt.offline(sd, w, N)]
+            sc = ct.make_spec(mode, txt, vs, unit=unit)
+            args = [[v, [[k * scale, w[v][k]] for k in range(N)]] for v in vs]
+        else:
+            scale = None
+            txt = 'out = ' + text_scaled(f, P)
+            period = None if P == 1 else (int(P * 1000), 'ms', 0.1)
+            sd = dt.make_spec('offline', txt, vs, period=period)
+            disc = [p[1] for p in dt.offline(sd, w, N, [float(k * P) for k in range(N)])]
+            sc = ct.make_spec(mode, txt, vs)
+            args = [[v, [[float(k * P), w[v][k]] for k in range(N)]] for v in vs]
         dense = sc.evaluate(*args) if mode == 'offline' else sc.update(*args)
         dense = [list(p) for p in dense]
         env.observe('discrete', disc)
@@ -59,7 +84,7 @@ def h_grid(f, N, P, mode='offline'):
             return res + [('dense-nonempty', A.false)]
         for k in range(N):
             if k + h < N:
-                t = float(k * P)
+                t = float(k * P) if scale is None else k * scale
                 if mode == 'online':
                     # the online output covers [first, last output time]
                     inside = A.And(A.le(dense[0][0], t), A.le(t, dense[-1][0]))
@@ -105,6 +130,26 @@ def obligations(tier, rng):
             f = (k, X, a, b)
             N = 6 if quick else 7
             out.append(ob('C19', 'grid', 'wide/%s/P=1/N=%d' % (text(f), N), f=f, N=N, P='1', max_paths=60000, wall=(300 if quick else 1500)))
+    # bounds written with units: both monitors must read them the same way (unit-less bound next to a unit-bearing one, default unit
+    # different from the unit written, sampling period given in another unit)
+    SP = [('s-default', '%d', '%d', None, 1, (1, 's')), ('end-only', '%d', '%ds', None, 1, (1, 's')), ('ms-default-end-s', '%d', '%ds', 'ms', 1000, (1, 's')),
+          ('ms-default-begin-s', '%ds', '%d', 'ms', 1000, (1000, 'ms')), ('ms-default-both-s', '%ds', '%ds', 'ms', 1000, (1, 's')),
+          ('mixed', '%d000ms', '%ds', None, 1, (1000, 'ms')), ('ms-default', '%d', '%d', 'ms', 1, (1, 'ms')),
+          ('us-default-end-ms', '%d', '%dms', 'us', 1000, (1, 'ms'))]
+    for k in FR_UNT:
+        for a, b in ([(1, 2)] if quick else [(1, 2), (0, 1), (2, 3)]):
+            f = (k, X, a, b)
+            for name, fa, fb, unit, scale, per in SP:
+                if a == 0 and fa.endswith('000ms'):
+                    continue
+                for mode in ['offline'] + ([] if refsem.has_future(f) else ['online']):
+                    N = 4
+                    out.append(ob('C19', 'grid', 'units/%s/%s/%s/N=%d' % (mode, name, text_spelled(f, fa, fb), N), f=f, N=N, P='1', mode=mode,
+                                  spell=[fa, fb, unit, scale, list(per)], max_paths=40000, wall=900))
+    for f in [('always_t', ('implies', X, ('eventually_t', Y, 0, 1)), 0, 1), ('once_t', ('historically_t', X, 1, 2), 0, 1)]:
+        for name, fa, fb, unit, scale, per in SP[2:5]:
+            out.append(ob('C19', 'grid', 'units/offline/%s/%s/N=5' % (name, text_spelled(f, fa, fb)), f=f, N=5, P='1', spell=[fa, fb, unit, scale, list(per)],
+                          max_paths=40000, wall=900))
     # nestings of the unbounded past operators (they share visitor fields in the dense-time monitor)
     for k1 in ('once', 'historically'):
         for k2 in ('once', 'historically'):
